@@ -334,6 +334,7 @@ theorem queue_is_what_was_sent (q : Quirks) (s : Server) (evs : List Event) (cid
     (hidle : (pre.foldl (connEvent q) (s.conns cid)).inTx = false)
     (hc : ∀ c ∈ cmds, queueable q c = true) :
     ((run q s evs).conns cid).inTx = true ∧ ((run q s evs).conns cid).queue = cmds ∧
+    ((run q s evs).conns cid).aborted = false ∧
     ((run q s evs).conns cid).db = (pre.foldl (connEvent q) (s.conns cid)).db := by
   rw [conn_state_is_fold_of_own_events, hown, List.foldl_append]
   generalize pre.foldl (connEvent q) (s.conns cid) = c0 at hidle
@@ -346,6 +347,49 @@ theorem queue_is_what_was_sent (q : Quirks) (s : Server) (evs : List Event) (cid
     simp [connEvent, connStep, he, hn, kindOf, hidle]
   rw [hm, fold_queueing q cid now cmds _ rfl hc]
   simp
+
+/-- A fresh transaction runs exactly its own commands, whatever came before on that connection:
+    if the connection's own events — interleaved in any way with other connections — are ANY history
+    that leaves it outside a transaction (earlier transactions that ran, that were refused because a
+    WATCHed key changed, that were DISCARDed, refused EXECs and nested MULTIs, …) followed by MULTI and
+    the queueable commands `cmds`, then an EXEC whose WATCH check passes replies with exactly
+    `|cmds|` slots and leaves the dataset that EXEC's loop over `cmds` — nothing of an earlier, aborted
+    or discarded transaction is run. -/
+theorem fresh_transaction_runs_exactly_its_own_commands (q : Quirks) (s : Server) (evs : List Event) (cid now : Nat)
+    (pre : List Event) (cmds : List Cmd) (r : Req)
+    (hown : ownEvents cid evs = pre ++ framesOf cid now (cMULTI :: cmds))
+    (hidle : (pre.foldl (connEvent q) (s.conns cid)).inTx = false)
+    (hc : ∀ c ∈ cmds, queueable q c = true)
+    (hname : nameOf r.cmd = "EXEC") (hw : r.watchOk = true) :
+    let S := run q s evs
+    ∃ slots, (processFrame q S cid r).2 = .exec slots ∧ slots.length = cmds.length ∧
+      (processFrame q S cid r).1.store =
+        (execFold q true cid r.now ⟨S.store, (S.conns cid).db, S.ext⟩ cmds).1.store ∧
+      ((processFrame q S cid r).1.conns cid).queue = [] := by
+  intro S
+  obtain ⟨h1, h2, h3, _⟩ := queue_is_what_was_sent q s evs cid now pre cmds hown hidle hc
+  rw [processFrame_exec q S cid r hname]
+  obtain ⟨e1, _, e3⟩ := exec_runs q S cid r h1 hw h3
+  refine ⟨_, e3, ?_, ?_, ?_⟩
+  · unfold execResult; rw [execFold_length, h2]
+  · rw [e1]; unfold execResult; rw [h2]
+  · have h1' : (S.conns cid).inTx = true := h1
+    have h3' : (S.conns cid).aborted = false := h3
+    rw [exec_conn_self]; simp [h1', hw, h3', cleared]
+
+/-- an earlier transaction of connection 1 was refused by WATCH (`watchOk := false`), then a fresh one -/
+def demoAfterAbort : List Event :=
+  [.frame 1 { cmd := cMULTI }, .frame 1 { cmd := cSET [97] [49] }, .frame 1 { cmd := cINCR [99] },
+   .frame 1 { cmd := cEXEC, watchOk := false },
+   .frame 1 { cmd := cMULTI }, .frame 1 { cmd := cSET [98] [50] }, .frame 1 { cmd := cEXEC }]
+
+/-- non-vacuity: the refused EXEC answers a null array, the next EXEC has ONE slot, `a` was never set -/
+example : trace Quirks.spec {} demoAfterAbort =
+      [some (.one (.frame KS.ok)), some (.one (.frame queuedFrame)), some (.one (.frame queuedFrame)),
+       some (.one (.frame .nullArray)),
+       some (.one (.frame KS.ok)), some (.one (.frame queuedFrame)), some (.exec [.frame KS.ok])] ∧
+    KS.lookup (KS.getDb (run Quirks.spec {} demoAfterAbort).store 0) [97] = none :=
+  ⟨rfl, by decide⟩
 
 /-! ## 4. A runtime error is reported in its slot and does not stop the others -/
 
@@ -778,6 +822,11 @@ theorem loop_structure_matches_source :
 /-- pushes run by EXEC wake nobody; `handle_exec` serves the keys it pushed to after its loop
     (the structure `Loop.frame` transliterates) -/
 theorem exec_serves_waiters_after_its_loop : Gen.execNotifiesWaiters = false := by decide
+
+/-- a new transaction starts with an empty queue (what `processFrame`'s MULTI, `exec` and DISCARD
+    transliterate): `handle_multi` clears the queue, or every exit of `handle_exec` that leaves the
+    transaction and `handle_discard` clear or take it -/
+theorem queue_cleared_when_transaction_ends : Gen.queueClearedWhenTransactionEnds = true := by decide
 
 /-- every fact above was actually read off the source: the translator substitutes a pessimistic
     value for a shape it does not recognise (so that model and driver keep building and the TCP run
